@@ -1,5 +1,6 @@
 import BeffVerif.Props.C08
 import BeffVerif.Props.C08Decls
+import BeffVerif.Props.C08Frag
 open BeffVerif.C08
 #print axioms foldl_perm
 #print axioms spec_union_perm
@@ -15,3 +16,7 @@ open BeffVerif.C08
 #print axioms mem_congr
 #print axioms find_perm
 #print axioms spec_decls_perm
+#print axioms BeffVerif.C08F.frag_same_meaning_same_validator
+#print axioms BeffVerif.C08F.frag_property_order_invisible
+#print axioms BeffVerif.C08F.frag_paren_invisible
+#print axioms BeffVerif.C08F.frag_readonly_invisible
